@@ -1595,13 +1595,7 @@ vh_run(const VhTok* tape, size_t n, VhReport* rep)
                     x.sched.mode = vsim::TapeSched::PCT;
                     x.c.cls(CL_PCT);
                 }
-                if (!x.sched.edge_prob && (t.a & 2)) {
-                    // fine profile: preempt inside the code under test, between platform calls
-                    static const unsigned prob[4] = { 16, 48, 128, 255 }, span[8] = { 2, 4, 8, 16, 32, 64, 256, 2048 };
-                    x.sched.edge_prob = prob[(t.a >> 2) & 3];
-                    x.sched.edge_span = span[(t.a >> 4) & 7];
-                    x.sched.edge_seed = vh_mix64(((uint64_t)t.b << 32) | ((uint64_t)t.c << 16) | t.d);
-                }
+                x.sched.arm_fine(t.a, t.b, t.c, t.d); // fine profile: preempt inside the code under test, between platform calls
                 uint16_t w[3] = { t.b, t.c, t.d };
                 for (uint16_t v : w) {
                     if (x.sched.mode == vsim::TapeSched::PCT && x.sched.change_points.size() < 4)
